@@ -177,7 +177,7 @@ CLAIMED = {
                  "functions (statement kernels, float): the new factor is the quotient measured/model whenever measured < 10^4 * model and never anything "
                  "but that quotient or 0; lemma: for data generated from the model (measured = model*f, 1e-3 <= f <= 1e3) the update is the quotient - the "
                  "generating factors are a fixed point up to the rounding of one product and one quotient (that rounding bound itself: IEEE, not proved). "
-                 (f) apply / un-apply statements of apply_block_norm, apply_efficiencies, apply_geo_norm: apply multiplies and un-apply divides by the same "
+                 "(f) apply / un-apply statements of apply_block_norm, apply_efficiencies, apply_geo_norm: apply multiplies and un-apply divides by the same "
                  "factor with the indices the factor kind prescribes. "
                  "Not decided: that the division undoes the multiplication (rounding), the rotation/mirror map of apply_geo_norm, iterate_efficiencies, the sums around the element "
                  "update, KL descent of the ML iterations, the loops around the maps; the FanProjData and GeoData3D constructors, GeoData3D::is_in_data and operator() ARE under contract (index ranges = reader contracts, element addressed inside them); BlockData3D / DetPairData are not."),
